@@ -17,6 +17,7 @@ import (
 	"path/filepath"
 	"sort"
 	"strings"
+	"sync"
 	"sync/atomic"
 	"syscall"
 	"time"
@@ -165,20 +166,35 @@ func PrepareDaemon(o DaemonOpts) (*Daemon, error) {
 			names = append(names, w)
 		}
 		sort.Strings(names)
+		// Wallets are filled in parallel (creating a keystore account costs ~57 ms).
+		var wg sync.WaitGroup
+		errs := make(chan error, len(names))
 		for _, wname := range names {
 			w, err := nd.CreateWallet(ctx, wname, store, enc)
 			if err != nil {
 				return nil, err
 			}
-			if err := w.(e2wtypes.WalletLocker).Unlock(ctx, nil); err != nil {
-				return nil, err
-			}
-			for i, a := range o.NDWallets[wname] {
-				if _, err := w.(e2wtypes.WalletAccountImporter).ImportAccount(ctx, a, DetKey("ndw-"+wname, i).Priv.Marshal(), []byte("pass")); err != nil {
-					return nil, err
+			wg.Add(1)
+			go func(wname string, w e2wtypes.Wallet) {
+				defer wg.Done()
+				if err := w.(e2wtypes.WalletLocker).Unlock(ctx, nil); err != nil {
+					errs <- err
+					return
 				}
-			}
-			_ = w.(e2wtypes.WalletLocker).Lock(ctx)
+				for i, a := range o.NDWallets[wname] {
+					if _, err := w.(e2wtypes.WalletAccountImporter).ImportAccount(ctx, a, DetKey("ndw-"+wname, i).Priv.Marshal(), []byte("pass")); err != nil {
+						errs <- err
+						return
+					}
+				}
+				_ = w.(e2wtypes.WalletLocker).Lock(ctx)
+			}(wname, w)
+		}
+		wg.Wait()
+		select {
+		case err := <-errs:
+			return nil, err
+		default:
 		}
 		for _, wname := range o.DistWallets {
 			if _, err := distributed.CreateWallet(ctx, wname, store, enc); err != nil {
